@@ -227,7 +227,7 @@ class Task(object):
         if self.loader and self.loader.task_dep:
             self.task_dep.append(loader.task_dep)
 
-        uptodate = uptodate if uptodate else []
+        uptodate = list(uptodate) if uptodate else []
 
         self.getargs = getargs
         if self.getargs:
